@@ -12,7 +12,7 @@ PATTERNS = ["a", "a+", "^a$", "(a)", "(", "[", "^[a-z]+$", "\\d+", "日", "", "b
 # invalid patterns and the part of them the parser names in its error: other (mostly valid) expressions
 FRAGMENTS = {"^[z-a]+$": ["z-a"], "a{2,1}": ["{2,1}"], "(?P<n>a)(?P<n>b)": ["n"], "[[:foo:]]": ["[:foo:]"], "^id-[9-0]*$": ["9-0"],
              "x**": ["**"], "a\\8": ["\\8"], "(": ["("], "[": ["["], "*": ["*"]}
-STRINGS = ["", "a", "aa", "ab", "b", "7", "日本", "x", "x-1", "A", "a ", " a", "a\t", "b ", "x- ", "aa "]
+STRINGS = ["", "a", "aa", "ab", "b", "7", "日本", "x", "x-1", "A", "a ", " a", "a\t", "b ", "x- ", "aa ", "B", "X-1", "AB"]
 SPECS = ["fixtures/validation/valid-ref.json", "fixtures/validation/fixture-161-good.json", "fixtures/validation/fixture-43.json", "fixtures/validation/duplicateprops.json", "fixtures/validation/fixture-1243-5.json"]
 
 
@@ -72,8 +72,11 @@ def rexp_cases(seed, n, concurrent):
             if len(p0) > 2 and rng.random() < 0.3:
                 a = rng.randrange(len(p0) - 1)
                 pats.append(p0[a:rng.randint(a + 1, len(p0))])
-        ops = [{"via": rng.choice(["Pattern", "Pattern", "schema", "patprops"]), "p": rng.choice(pats), "s": rng.choice(STRINGS)}
+        ops = [{"via": rng.choice(["Pattern", "Pattern", "schema", "patprops", "closed"]), "p": rng.choice(pats), "s": rng.choice(STRINGS)}
                for _ in range(rng.randint(5, 60))]
+        for op in ops:
+            if op["via"] == "closed":      # two patternProperties side by side in a closed object
+                op["p2"] = rng.choice(pats)
         c = {"id": i, "ops": ops}
         if concurrent:
             c["goroutines"] = rng.choice([1, 2, 4, 16, 64])
